@@ -76,8 +76,13 @@ func (l *ltBroadcast) buildPendBlock(pd *pendBlock) bool {
 		log.Error("buildPendBlock", "queryMemPool", "nilReplyTxList")
 		return false
 	}
+	// 请求mempool会返回相应长度的数组, 长度不一致时不能继续组装
+	if len(txList.GetTxs()) != len(pd.notExistTxIndices) {
+		log.Error("buildPendBlock", "height", pd.block.GetHeight(), "queryTxCount", len(pd.notExistTxIndices),
+			"replyTxCount", len(txList.GetTxs()))
+		return false
+	}
 	buildSuccess := true
-	// 请求mempool会返回相应长度的数组
 	for i, index := range pd.notExistTxIndices {
 		tx := txList.GetTxs()[i]
 		// 交易已经设置, 主要是交易组情况
@@ -89,9 +94,16 @@ func (l *ltBroadcast) buildPendBlock(pd *pendBlock) bool {
 			buildSuccess = false
 			continue
 		}
-		pd.block.GetTxs()[index] = tx
 		// 交易组处理
 		group, _ := tx.GetTxGroup()
+		// 交易组超出区块交易范围, 轻区块数据和交易不一致, 无法组装成功
+		if index+len(group.GetTxs()) > len(pd.block.GetTxs()) {
+			log.Error("buildPendBlock", "height", pd.block.GetHeight(), "txCount", len(pd.block.GetTxs()),
+				"index", index, "groupCount", len(group.GetTxs()), "err", "tx group out of range")
+			buildSuccess = false
+			continue
+		}
+		pd.block.GetTxs()[index] = tx
 		// 交易组中的其他交易, 依次添加到区块交易列表中
 		for j, gtx := range group.GetTxs() {
 			pd.block.GetTxs()[index+j] = gtx
